@@ -596,7 +596,7 @@ unsafe fn child_misc(dir: &Path, fd: i32) -> ! {
 }
 
 // ---------------------------------------------------------------------------------------------
-// Parent side
+// Parent side (shared)
 
 #[derive(Debug, Default)]
 struct FamilyResult {
@@ -831,6 +831,220 @@ fn check_combos(items: &[(usize, &Path, &Combo)], tmp: &Path, only_cap: Option<u
   outs
 }
 
+// ---------------------------------------------------------------------------------------------
+// Call-sequence family: several calls on ONE handle, every call judged against the response a
+// FRESH handle gives for the same arguments
+
+const SEQ_QUERIES: [&[u8]; 2] = [b"a", br#"{"type":"match_all"}"#];
+const SEQ_BUFS: [&str; 6] = ["null", "cap0", "cap1", "small", "exact", "large"];
+const SEQ_SMALL: usize = 17;
+
+#[derive(Debug, Clone, PartialEq)]
+struct SeqCall {
+  /// index into SEQ_QUERIES
+  q: usize,
+  /// one of SEQ_BUFS
+  buf: &'static str,
+  /// "valid" | "null-query" | "bad-aggs"
+  bad: &'static str,
+}
+
+impl SeqCall {
+  fn to_json(&self) -> Value {
+    json!({"query": String::from_utf8_lossy(SEQ_QUERIES[self.q]), "limit": 10, "buffer": self.buf, "args": self.bad})
+  }
+  fn from_json(v: &Value) -> SeqCall {
+    let q = SEQ_QUERIES.iter().position(|x| String::from_utf8_lossy(x) == v["query"].as_str().unwrap_or("a")).unwrap_or(0);
+    let buf = SEQ_BUFS.iter().find(|b| Some(**b) == v["buffer"].as_str()).copied().unwrap_or("large");
+    let bad = ["valid", "null-query", "bad-aggs"].into_iter().find(|b| Some(*b) == v["args"].as_str()).unwrap_or("valid");
+    SeqCall { q, buf, bad }
+  }
+}
+
+fn seq_alphabet() -> Vec<SeqCall> {
+  let mut v = Vec::new();
+  for q in 0..SEQ_QUERIES.len() {
+    for buf in SEQ_BUFS {
+      v.push(SeqCall { q, buf, bad: "valid" });
+    }
+  }
+  // null / invalid arguments: status 0 whatever the buffer
+  v.push(SeqCall { q: 0, buf: "large", bad: "null-query" });
+  v.push(SeqCall { q: 0, buf: "cap0", bad: "null-query" });
+  v.push(SeqCall { q: 1, buf: "large", bad: "bad-aggs" });
+  v.push(SeqCall { q: 1, buf: "null", bad: "bad-aggs" });
+  v
+}
+
+/// Every ordered pair (thorough: also every ordered triple) over the call alphabet, pairs first.
+fn seq_sequences(thorough: bool) -> Vec<Vec<SeqCall>> {
+  let a = seq_alphabet();
+  let mut out = Vec::new();
+  for x in &a {
+    for y in &a {
+      out.push(vec![x.clone(), y.clone()]);
+    }
+  }
+  if thorough {
+    for x in &a {
+      for y in &a {
+        for z in &a {
+          out.push(vec![x.clone(), y.clone(), z.clone()]);
+        }
+      }
+    }
+  }
+  out
+}
+
+/// One call of a sequence; returns the oracle's verdict.
+unsafe fn seq_call(h: *mut IndexHandle, c: &SeqCall, fulls: &[Vec<u8>]) -> Result<&'static str, (String, usize)> {
+  let valid = c.bad == "valid";
+  let full: &[u8] = if valid { &fulls[c.q] } else { &[] };
+  let (cap, null_out) = match c.buf {
+    "null" => (64, true),
+    "cap0" => (0, false),
+    "cap1" => (1, false),
+    "small" => (SEQ_SMALL, false),
+    "exact" => (fulls[c.q].len() + 1, false),
+    _ => (BIG, false),
+  };
+  let g = Guarded::new(cap);
+  let q = CString::new(SEQ_QUERIES[c.q].to_vec()).unwrap();
+  let bad_aggs = b"not valid json";
+  let (ap, al) = if c.bad == "bad-aggs" { (bad_aggs.as_ptr() as *const c_char, bad_aggs.len()) } else { (std::ptr::null(), 0) };
+  let ret = searchlite_search(
+    h,
+    if c.bad == "null-query" { std::ptr::null() } else { q.as_ptr() },
+    10,
+    std::ptr::null(),
+    ap,
+    al,
+    if null_out { std::ptr::null_mut() } else { g.buf() as *mut c_char },
+    cap + selftest_lie(cap),
+  );
+  let can = g.canaries_intact();
+  let mut probe = Combo::new("sequence", "a", 10);
+  probe.null_out = null_out;
+  judge(&probe, cap, full, ret, &can, g.bytes()).map_err(|e| (e, ret))
+}
+
+unsafe fn child_sequences(dir: &Path, seqs: &[Vec<SeqCall>], start: usize, fd: i32) -> ! {
+  let out = |s: String| {
+    let b = s.as_bytes();
+    let mut off = 0;
+    while off < b.len() {
+      let n = libc::write(fd, b[off..].as_ptr() as *const _, b.len() - off);
+      if n <= 0 {
+        libc::_exit(98);
+      }
+      off += n as usize;
+    }
+  };
+  libc::alarm(600);
+  let devnull = CString::new("/dev/null").unwrap();
+  let nfd = libc::open(devnull.as_ptr(), libc::O_WRONLY);
+  if nfd >= 0 {
+    libc::dup2(nfd, 2);
+  }
+  let p = CString::new(dir.to_string_lossy().to_string()).unwrap();
+  // reference responses: each from its own fresh handle, large buffer
+  let mut fulls: Vec<Vec<u8>> = Vec::new();
+  for q in SEQ_QUERIES {
+    let h = searchlite_index_open(p.as_ptr(), false);
+    if h.is_null() {
+      out("E setup: searchlite_index_open returned null\n".into());
+      libc::_exit(3);
+    }
+    let cq = CString::new(q.to_vec()).unwrap();
+    let mut buf = vec![0u8; BIG];
+    let n = searchlite_search(h, cq.as_ptr(), 10, std::ptr::null(), std::ptr::null(), 0, buf.as_mut_ptr() as *mut c_char, BIG);
+    searchlite_index_close(h);
+    if n == 0 || serde_json::from_slice::<Value>(&buf[..n]).is_err() {
+      out(format!("E setup: reference call for query {:?} on a fresh handle returned {n}\n", String::from_utf8_lossy(q)));
+      libc::_exit(3);
+    }
+    fulls.push(buf[..n].to_vec());
+  }
+  for (i, seq) in seqs.iter().enumerate().skip(start) {
+    out(format!("S {i}\n"));
+    let h = searchlite_index_open(p.as_ptr(), false);
+    if h.is_null() {
+      out("E setup: searchlite_index_open returned null\n".into());
+      libc::_exit(3);
+    }
+    let mut bad: Option<(usize, String, usize)> = None;
+    for (k, c) in seq.iter().enumerate() {
+      if let Err((why, ret)) = seq_call(h, c, &fulls) {
+        bad = Some((k, why, ret));
+        break;
+      }
+    }
+    searchlite_index_close(h);
+    match bad {
+      None => out(format!("R {i} ok sequence-{}\n", seq.len())),
+      Some((k, why, ret)) => out(format!("R {i} bad {}\n", json!({"ret": ret, "why": format!("call {} of {} on the same handle ({}): {why} [len(full) of this call on a fresh handle = {}]", k + 1, seq.len(), seq[k].to_json(), if seq[k].bad == "valid" { fulls[seq[k].q].len() } else { 0 })}))),
+    }
+  }
+  libc::_exit(0);
+}
+
+struct SeqOutcome {
+  sequences: u64,
+  calls: u64,
+  failures: Vec<(String, Value)>,
+  classes: BTreeMap<String, u64>,
+}
+
+/// Run the sequences in `par` slices, restarting a slice behind a sequence that killed the child.
+fn run_sequences(dir: &Path, world: usize, seqs: &[Vec<SeqCall>], tmp: &Path) -> SeqOutcome {
+  let par = vcore::threads().max(1);
+  let per = seqs.len().div_ceil(par).max(1);
+  let slices: Vec<&[Vec<SeqCall>]> = seqs.chunks(per).collect();
+  let mut o = SeqOutcome { sequences: 0, calls: 0, failures: vec![], classes: BTreeMap::new() };
+  let mut todo: Vec<(usize, usize, usize)> = (0..slices.len()).map(|s| (s, 0, 0)).collect();
+  while !todo.is_empty() {
+    let results = fork_batch(todo.len(), par, tmp, &|k, fd| unsafe {
+      let (s, start, _) = todo[k];
+      child_sequences(dir, slices[s], start, fd)
+    });
+    let mut next = Vec::new();
+    for (k, (text, how)) in results.into_iter().enumerate() {
+      let (s, _, deaths) = todo[k];
+      let mut res = FamilyResult::default();
+      let restart = parse_family(&text, &how, &mut res);
+      if let Some(e) = res.setup_error {
+        vcore::ev::machinery_failure(&format!("C26 sequence family: {e}"));
+      }
+      o.sequences += res.done as u64;
+      for (cl, n) in res.classes {
+        let len: u64 = cl.rsplit('-').next().and_then(|x| x.parse().ok()).unwrap_or(0);
+        o.calls += len * n;
+        *o.classes.entry(cl).or_insert(0) += n;
+      }
+      let case = |i: usize| json!({"world": world, "sequence": slices[s][i].iter().map(|c| c.to_json()).collect::<Vec<_>>()});
+      let show = |i: usize| slices[s][i].iter().map(|c| format!("{}({},{})", c.bad, String::from_utf8_lossy(SEQ_QUERIES[c.q]), c.buf)).collect::<Vec<_>>().join(" -> ");
+      for (i, why, _) in res.bad.iter() {
+        o.calls += slices[s][*i].len() as u64;
+        o.failures.push((format!("call sequence on one handle [{}]: {why}", show(*i)), case(*i)));
+      }
+      if let Some((how, at)) = res.died {
+        let i: usize = at.split(' ').next().and_then(|x| x.parse().ok()).unwrap_or(0);
+        if i < slices[s].len() {
+          o.failures.push((format!("call sequence on one handle [{}]: child {how}", show(i)), case(i)));
+        }
+        if let Some(n) = restart {
+          if n < slices[s].len() && deaths < 3 {
+            next.push((s, n, deaths + 1));
+          }
+        }
+      }
+    }
+    todo = next;
+  }
+  o
+}
+
 fn classify(_what: &str) -> Option<&'static str> {
   // no genuine defect of searchlite_search's buffer handling is known on the reference tree
   None
@@ -879,6 +1093,26 @@ pub fn run(ctx: &Ctx) -> i32 {
         }
       };
     }
+    if cs["sequence"].is_array() {
+      let world = cs["world"].as_u64().unwrap_or(0) as usize;
+      let seq: Vec<SeqCall> = cs["sequence"].as_array().unwrap().iter().map(SeqCall::from_json).collect();
+      let (sc, dirs) = setup_worlds(world + 1);
+      let run = || run_sequences(&dirs[world], world, std::slice::from_ref(&seq), &sc.path).failures.first().map(|f| f.0.clone());
+      let (a, b) = (run(), run());
+      if a.is_some() != b.is_some() {
+        vcore::ev::machinery_failure("NONDETERMINISM on replay");
+      }
+      return match a {
+        Some(w) => {
+          println!("VIOLATION property=C26 replay={path}\n  what: {w}");
+          1
+        }
+        None => {
+          println!("replay: no violation");
+          0
+        }
+      };
+    }
     let world = cs["world"].as_u64().unwrap_or(0) as usize;
     let c = Combo::from_json(&cs["combo"]);
     let cap = cs["buf_cap"].as_u64().map(|x| x as usize);
@@ -910,6 +1144,17 @@ pub fn run(ctx: &Ctx) -> i32 {
   let mut nontrivial = 0u64;
   let mut sweeps = 0u64;
   let mut combo_names: BTreeSet<String> = BTreeSet::new();
+  // the call-sequence family runs first
+  let seqs = seq_sequences(!quick);
+  let so = run_sequences(&dirs[0], 0, &seqs, &sc.path);
+  rep.add_evals(so.calls);
+  for (what, case) in &so.failures {
+    rep.fail(classify(what), what, case.clone());
+  }
+  for (k, v) in &so.classes {
+    *classes.entry(k.clone()).or_insert(0) += v;
+  }
+  let seq_wall = rep.elapsed_s();
   // forks are issued from this thread only (the rayon pool is idle); children run concurrently
   let mut items: Vec<(usize, &Path, &Combo)> = Vec::new();
   for (w, dir) in dirs.iter().enumerate() {
@@ -963,6 +1208,7 @@ pub fn run(ctx: &Ctx) -> i32 {
     "combinations" => cs.len(),
     "combination_names" => combo_names,
     "capacity_sweeps" => sweeps,
+    "call_sequence_family" => json!({"rule": "on ONE handle: every ordered pair (thorough: and every ordered triple) of calls from {query a, query match_all} x {buffer: NULL, cap 0, cap 1, cap 17, cap len+1, cap large} valid, plus null query (large / cap 0) and unparsable aggregation JSON (large / NULL buffer); EVERY call of the sequence is judged with the single-call oracle against the response a FRESH handle gives for the same arguments (invalid arguments: status 0)", "alphabet": seq_alphabet().len(), "sequences": so.sequences, "calls_judged": so.calls, "failures": so.failures.len(), "wall_s": seq_wall}),
     "outcome_classes" => classes,
     "distinct_observed_outcomes" => classes.len(),
     "exhaustive" => true,
